@@ -3,7 +3,7 @@ import z3
 
 from . import repo
 from .repo import ClassInfo
-from .values import (Sym, SStr, SInt, SBool, SBytes, SStrList, Obj, DictV, ListV, SetV, mk_bool, mk_int,
+from .values import (SRec, Sym, SStr, SInt, SBool, SBytes, SStrList, Obj, DictV, ListV, SetV, mk_bool, mk_int,
                      mk_str, zs, zi)
 from .engine import PathEnd, OutOfReach
 from . import regex2smt
@@ -154,6 +154,9 @@ class Factory(object):
         d.entries["name"] = [self.str(name + ".name"), z3.simplify(has_name)]
         d.entries["namespace"] = [self.one_of(None, lambda: self.str(name + ".namespace")), z3.simplify(is_tag) if is_tag is not False else False]
         return d, t
+
+    def rec(self, kind, zid, **attrs):
+        return SRec(zid, kind, attrs)
 
     def strmap(self, name, pair_keys=False, forall=None):
         """dict with arbitrarily many symbolic entries (string keys, or (ns, local) pairs); `forall(k, v)`
